@@ -726,11 +726,11 @@ def dshist_case(ctx, drv, hist):
         if fit == "none":
             wantf, tolf = want.astype(np.float64), 0.0
         elif fit == "no_shift":
-            wantf, tolf = np.stack([np.full((sr, sc), h // 2), np.full((sr, sc), w // 2)]).astype(np.float64), 0.0
+            wantf, tolf = None, 0.0            # not a fit of the measured origins: outside the property (model tie + fresh object only)
         else:
             wantf = np.stack([np.full((sr, sc), float(sum(e[0] for e in exact) / n)), np.full((sr, sc), float(sum(e[1] for e in exact) / n))])
             tolf = TOL32
-        devf = float("inf") if gf is None or gf.shape != wantf.shape else float(np.abs(gf.astype(np.float64) - wantf).max()) / max(1.0, float(np.abs(wantf).max()))
+        devf = 0.0 if wantf is None else float("inf") if gf is None or gf.shape != wantf.shape else float(np.abs(gf.astype(np.float64) - wantf).max()) / max(1.0, float(np.abs(wantf).max()))
         if not devf <= tolf:
             ctx.pred_fail("com-fit-dataset-model-stale-in-history", f"{entry}, fit '{fit}': com_fit does not belong to the centre of mass of the patterns the object holds NOW" + hist_note, opcase,
                           observed={"com_fit_first": None if gf is None else [float(gf[0].ravel()[0]), float(gf[1].ravel()[0])], "max_rel_dev": devf},
@@ -748,9 +748,13 @@ def dshist_case(ctx, drv, hist):
                 ctx.pred_fail("history-differs-from-fresh-object", f"{entry}: {name} after a history differs from the same call on a fresh object built from the current patterns" + hist_note, opcase,
                               observed=None if st[name] is None else st[name].reshape(-1)[:6].tolist(), required=None if fst[name] is None else fst[name].reshape(-1)[:6].tolist())
                 return
-        # the estimate must not alter the patterns
+        # the estimate must not alter the patterns in a way a second estimate can see
         if not np.array_equal(np.asarray(pd.intensities_4d), before):
-            ctx.pred_fail("com-dataset-model-mutates-patterns", f"{entry} changes the patterns held by the object", opcase, observed="intensities_4d changed", required="unchanged")
+            apply_ds(pd, op, shape)
+            again = ds_state(pd)["com_measured"]
+            if again is None or again.shape != want.shape or not np.array_equal(again, want):
+                ctx.pred_fail("com-dataset-model-mutates-input", f"{entry} changes the patterns held by the object: running the same call again no longer returns the (masked) intensity-weighted mean of the patterns as they were" + hist_note, opcase,
+                              observed=None if again is None else again.reshape(-1)[:4].tolist(), required=want.reshape(-1)[:4].tolist())
             return
     ctx.mark(("dshist", sr, sc, h, w, tuple((o["k"], o["valid"], o.get("fit"), o.get("vec")) for o in hist["ops"])))
     _ds_model_tie(ctx, drv, hist, impl_states, labels, prov, case, upto=len(hist["ops"]) - 1)
